@@ -175,7 +175,10 @@ func init() {
 	properties["C04"].Units = append(properties["C04"].Units,
 		l3Unit("scalars", map[string]int{"KINDS": 15, "DEPTH": 0, "NUMSHAPES": 2, "STRSHAPES": 2}, "C04.", "required/optional x nullable x inline/$ref for scalar properties"),
 		l3Unit("maps-enums-formats", l3Enums, "C04.", "required/optional typed maps, enums, untyped and format-typed properties"),
-		l3Unit("nested-objects", l3Objects, "C04.", "required members of a nested object (which is itself required or optional)"))
+		l3Unit("nested-objects", l3Objects, "C04.", "required members of a nested object (which is itself required or optional)"),
+		Unit{Name: "required-through-allOf-ref-across-documents", Harness: "pkg/generator:HarnessC20", Layer: "L3", Only: "C04.",
+			Desc:   "two documents in one run, each with its own definition named Base (different required lists) behind the same reference string inside allOf: the type composed in money.json rejects a symbolic document that omits the key ITS Base requires, in every package layout and argument order",
+			Bounds: "two files, three package layouts, both argument orders", Panic: "inconclusive"})
 	reg(&Property{ID: "C01", Units: append(l3All("C01."),
 		l3Unit("min-sized-ints", map[string]int{"KINDS": 4, "DEPTH": 0, "MINSIZED": 1}, "C01.", "integer properties with --min-sized-ints on and off: every bound literal fits the sized type that was chosen"),
 		l3Unit("defaults", map[string]int{"KINDS": 15, "DEPTH": 0, "DEFAULTS": 1, "NUMSHAPES": 3, "STRSHAPES": 3, "NONULL": 1}, "C01.", "properties with a default together with value constraints (default + validator interplay in the emitted method)"),
